@@ -8,7 +8,8 @@ mkdir -p build/bin coq/gen evidence replays
 python3 lib/pregen.py || true
 sh coq/mkmake.sh
 ( cd coq && timeout 3000 make -f Makefile.coq -j16 -k ) || echo "setup: some Coq files failed (the per-property checks report them)"
-for d in coq/extract/C*; do
+for d in coq/extract/*; do
+  [ "$(basename "$d")" = common ] && continue
   p=$(basename "$d")
   sh lib/build_model.sh "$p" || echo "setup: model $p failed to build"
 done
